@@ -5,6 +5,7 @@ import (
 	"go/token"
 	"go/types"
 	"regexp"
+	"sort"
 	"strings"
 
 	"golang.org/x/tools/go/ssa"
@@ -104,25 +105,185 @@ func runC20(c *Ctx) {
 			}
 			return name
 		}
+		// cmpSets: for a condition over version.Compare(a, b), the sets of Compare results on its true and
+		// on its false edge, with the two operands. Understands every comparison of the result with a
+		// constant, in either operand order, through negation.
+		type cmpInfo struct {
+			a0, a1     ssa.Value
+			onTrue     map[int]bool
+			onFalse    map[int]bool
+			recognised bool
+		}
+		var cmpOf func(fn *ssa.Function, cond ssa.Value, bind map[*ssa.Parameter]ssa.Value, depth int) cmpInfo
+		cmpOf = func(fn *ssa.Function, cond ssa.Value, bind map[*ssa.Parameter]ssa.Value, depth int) cmpInfo {
+			cond, neg := StripNot(cond)
+			resolve := func(v ssa.Value) ssa.Value {
+				if p, ok := v.(*ssa.Parameter); ok && bind[p] != nil {
+					return bind[p]
+				}
+				return v
+			}
+			var info cmpInfo
+			switch x := cond.(type) {
+			case *ssa.BinOp:
+				call, kv := x.X, x.Y
+				op := x.Op
+				if _, isK := ConstInt(call); isK {
+					call, kv = x.Y, x.X
+					op = map[token.Token]token.Token{token.LSS: token.GTR, token.GTR: token.LSS, token.LEQ: token.GEQ, token.GEQ: token.LEQ, token.EQL: token.EQL, token.NEQ: token.NEQ}[op]
+				}
+				cc, ok := call.(*ssa.Call)
+				k, isK := ConstInt(kv)
+				if !ok || !isK || !IsCallTo(cc, "go/version.Compare") {
+					return info
+				}
+				info.a0, info.a1 = resolve(cc.Call.Args[0]), resolve(cc.Call.Args[1])
+				info.onTrue, info.onFalse = map[int]bool{}, map[int]bool{}
+				for _, r := range []int{-1, 0, 1} {
+					holds := false
+					switch op {
+					case token.EQL:
+						holds = int64(r) == k
+					case token.NEQ:
+						holds = int64(r) != k
+					case token.LSS:
+						holds = int64(r) < k
+					case token.LEQ:
+						holds = int64(r) <= k
+					case token.GTR:
+						holds = int64(r) > k
+					case token.GEQ:
+						holds = int64(r) >= k
+					default:
+						return cmpInfo{}
+					}
+					if holds {
+						info.onTrue[r] = true
+					} else {
+						info.onFalse[r] = true
+					}
+				}
+				info.recognised = true
+			case *ssa.Call:
+				// a helper of the package: below(v, bound) = bound != "" && version.Compare(bound, v) == -1
+				h := x.Call.StaticCallee()
+				if h == nil || depth > 1 || FuncPkgPath(h) != FuncPkgPath(report) || h.Blocks == nil || len(Returns(h)) == 0 {
+					return info
+				}
+				b2 := map[*ssa.Parameter]ssa.Value{}
+				for pi, prm := range h.Params {
+					if pi < len(x.Call.Args) {
+						b2[prm] = resolve(x.Call.Args[pi])
+					}
+				}
+				// the helper returns the comparison itself (possibly as `bound != "" && Compare(…) == k`)
+				{
+					var cands []ssa.Value
+					for _, r := range Returns(h) {
+						v := r.Results[0]
+						if phi, ok := v.(*ssa.Phi); ok {
+							for _, e := range phi.Edges {
+								if !isBoolConst(e, false) {
+									cands = append(cands, e)
+								}
+							}
+						} else if !isBoolConst(v, false) {
+							cands = append(cands, v)
+						}
+					}
+					var first cmpInfo
+					same := len(cands) > 0
+					for i, cv := range cands {
+						if _, isBin := cv.(*ssa.BinOp); !isBin {
+							same = false
+							break
+						}
+						ci := cmpOf(h, cv, b2, depth+1)
+						if !ci.recognised {
+							same = false
+							break
+						}
+						if i == 0 {
+							first = ci
+						} else if ci.a0 != first.a0 || ci.a1 != first.a1 || len(ci.onTrue) != len(first.onTrue) {
+							same = false
+						}
+					}
+					if same {
+						info = cmpInfo{a0: first.a0, a1: first.a1, onTrue: first.onTrue, onFalse: map[int]bool{-1: true, 0: true, 1: true}, recognised: true}
+						if neg {
+							info.onTrue, info.onFalse = info.onFalse, info.onTrue
+						}
+						return info
+					}
+				}
+				// the helper answers true only on an edge of a Compare condition: collect the result sets of
+				// the edges every true-return passes
+				for _, hb := range h.Blocks {
+					iff, ok := hb.Instrs[len(hb.Instrs)-1].(*ssa.If)
+					if !ok {
+						continue
+					}
+					inner := cmpOf(h, iff.Cond, b2, depth+1)
+					if !inner.recognised {
+						continue
+					}
+					// true is returned only via this condition's true edge (or only via its false edge)?
+					for succ, set := range []map[int]bool{inner.onTrue, inner.onFalse} {
+						edge := map[Edge]bool{{Block: hb.Index, Succ: succ}: true}
+						all, any := true, false
+						for _, r := range Returns(h) {
+							v := r.Results[0]
+							maybeTrue := !isBoolConst(v, false)
+							if phi, ok := v.(*ssa.Phi); ok {
+								maybeTrue = false
+								for pi2, e := range phi.Edges {
+									if !isBoolConst(e, false) {
+										pred := phi.Block().Preds[pi2]
+										if okp, _ := MustPassEdges(h, pred.Instrs[len(pred.Instrs)-1], edge); !okp {
+											all = false
+										}
+										any = true
+									}
+								}
+								continue
+							}
+							if maybeTrue {
+								any = true
+								if okp, _ := MustPassEdges(h, r, edge); !okp {
+									all = false
+								}
+							}
+						}
+						if all && any {
+							info = cmpInfo{a0: inner.a0, a1: inner.a1, onTrue: set, onFalse: map[int]bool{-1: true, 0: true, 1: true}, recognised: true}
+						}
+					}
+				}
+			}
+			if neg && info.recognised {
+				info.onTrue, info.onFalse = info.onFalse, info.onTrue
+			}
+			return info
+		}
 		for _, b := range report.Blocks {
 			iff, ok := b.Instrs[len(b.Instrs)-1].(*ssa.If)
 			if !ok {
 				continue
 			}
-			cond, neg := StripNot(iff.Cond)
-			bo, ok := cond.(*ssa.BinOp)
-			if !ok {
+			info := cmpOf(report, iff.Cond, nil, 0)
+			if !info.recognised {
+				// a condition that mentions version.Compare in a form we do not understand must not pass silently
+				if Derives(iff.Cond, IsCallResult("go/version.Compare")) {
+					if bo, isBo := iff.Cond.(*ssa.BinOp); isBo {
+						if _, isCall := bo.X.(*ssa.Call); isCall {
+							c.Undecided("unrecognised comparison form of version.Compare in Report")
+						}
+					}
+				}
 				continue
 			}
-			call, ok := bo.X.(*ssa.Call)
-			if !ok || !IsCallTo(call, "go/version.Compare") {
-				continue
-			}
-			k, ok := ConstInt(bo.Y)
-			if !ok {
-				c.Undecided("Report compares version.Compare's result with a non-constant")
-			}
-			a0, a1 := call.Call.Args[0], call.Call.Args[1]
+			a0, a1 := info.a0, info.a1
 			f := fieldOf(a0)
 			swapped := false
 			verArg := a1
@@ -143,42 +304,46 @@ func runC20(c *Ctx) {
 			default:
 				c.Undecided("Report compares Options.%s with something that is neither code.LanguageVersion nor code.StdlibVersion", f)
 			}
-			// sign s such that the condition TRUE means sign(bound - version) == s
-			var s int
-			switch {
-			case bo.Op == token.EQL && (k == -1 || k == 1):
-				s = int(k)
-			case bo.Op == token.LSS && k == 0, bo.Op == token.LEQ && k == -1:
-				s = -1
-			case bo.Op == token.GTR && k == 0, bo.Op == token.GEQ && k == 1:
-				s = 1
-			default:
-				c.Undecided("unrecognised comparison form of version.Compare in Report for Options.%s", f)
+			// the edge on which the diagnostic is dropped (pass.Report unreachable) and the Compare results on it
+			dropped := false
+			for succIdx, set := range []map[int]bool{info.onTrue, info.onFalse} {
+				succ := b.Succs[succIdx]
+				t, _ := PathAvoiding(report, succ.Instrs[0], isPassReport, nil, nil)
+				if t != nil || isPassReport(succ.Instrs[0]) {
+					continue // the diagnostic can still be reported on this edge
+				}
+				if len(set) == 3 {
+					continue // an edge that says nothing about the comparison (e.g. the empty-bound short cut)
+				}
+				dropped = true
+				s := 0
+				switch {
+				case len(set) == 1 && set[-1]:
+					s = -1
+				case len(set) == 1 && set[1]:
+					s = 1
+				default:
+					c.Check(FuncKey(report)+"::violated-"+f+"-drops-the-diagnostic", iff.Pos(), false, "the diagnostic is dropped for Compare results %v of Options.%s: a bound is inclusive, so only 'strictly below the minimum' or 'strictly above the maximum' may drop it", SortedIntKeys(set), f)
+					continue
+				}
+				if swapped {
+					s = -s
+				}
+				c.Check(FuncKey(report)+"::violated-"+f+"-drops-the-diagnostic", iff.Pos(), true, "when the bound Options.%s is violated, pass.Report is unreachable", f)
+				r := role{kind: kind}
+				if s == -1 {
+					r.bound = "max" // bound < version ⇒ dropped
+				} else {
+					r.bound = "min" // bound > version ⇒ dropped
+				}
+				if old, dup := roles[f]; dup && old != r {
+					c.Check(FuncKey(report)+"::role-of-Options."+f, iff.Pos(), false, "Options.%s is used both as %s-%s and as %s-%s bound", f, old.bound, old.kind, r.bound, r.kind)
+				}
+				roles[f] = r
 			}
-			if swapped {
-				s = -s
+			if !dropped {
+				c.Check(FuncKey(report)+"::violated-"+f+"-drops-the-diagnostic", iff.Pos(), false, "when the bound Options.%s is violated, pass.Report must be unreachable", f)
 			}
-			if neg {
-				c.Undecided("negated version comparison in Report for Options.%s", f)
-			}
-			// the TRUE edge must drop the diagnostic: pass.Report unreachable
-			var succ *ssa.BasicBlock = b.Succs[0]
-			t, _ := PathAvoiding(report, succ.Instrs[0], isPassReport, nil, nil)
-			first := isPassReport(succ.Instrs[0])
-			if !c.Check(FuncKey(report)+"::violated-"+f+"-drops-the-diagnostic", iff.Pos(), t == nil && !first,
-				"when the bound Options.%s is violated, pass.Report must be unreachable", f) {
-				continue
-			}
-			r := role{kind: kind}
-			if s == -1 {
-				r.bound = "max" // bound < version ⇒ dropped
-			} else {
-				r.bound = "min" // bound > version ⇒ dropped
-			}
-			if old, dup := roles[f]; dup && old != r {
-				c.Check(FuncKey(report)+"::role-of-Options."+f, iff.Pos(), false, "Options.%s is used both as %s-%s and as %s-%s bound", f, old.bound, old.kind, r.bound, r.kind)
-			}
-			roles[f] = r
 		}
 		// the naming contract of the fields themselves
 		re := regexp.MustCompile(`^(Minimum|Maximum)(Language|Stdlib)Version$`)
@@ -232,10 +397,37 @@ func runC20(c *Ctx) {
 			nSetters++
 			c.SawFunc(fn.String())
 			var written []string
+			isParam := func(x ssa.Value) bool { _, ok := x.(*ssa.Parameter); return ok }
 			for fname := range roles {
 				for _, v := range storedToField(fn, "report.Options", fname) {
-					if DerivesLocal(v, func(x ssa.Value) bool { _, ok := x.(*ssa.Parameter); return ok }) {
+					if DerivesLocal(v, isParam) {
 						written = append(written, fname)
+					}
+				}
+				// … or through a helper that is handed the field's address: set(&opts.F, vers) with *dst = vers
+				for _, f := range DeepFuncs(fn, 0) {
+					for _, ci := range Calls(f, false) {
+						h := ci.Common().StaticCallee()
+						if h == nil || h.Blocks == nil || FuncPkgPath(h) != reportPkg {
+							continue
+						}
+						args := ci.Common().Args
+						for di, dst := range args {
+							if !IsFieldOf("report.Options", fname)(dst) || di >= len(h.Params) {
+								continue
+							}
+							Instrs(h, false, func(in ssa.Instruction) {
+								st, ok := in.(*ssa.Store)
+								if !ok || st.Addr != ssa.Value(h.Params[di]) {
+									return
+								}
+								for si, src := range h.Params {
+									if st.Val == ssa.Value(src) && si < len(args) && Derives(args[si], isParam) {
+										written = append(written, fname)
+									}
+								}
+							})
+						}
 					}
 				}
 			}
@@ -256,7 +448,10 @@ func runC20(c *Ctx) {
 		load := c.Func("go/loader", "Load")
 
 		link := func(fn *ssa.Function, key, typ, field string, src func(ssa.Value) bool, what string) {
-			vals := storedToField(fn, typ, field)
+			var vals []ssa.Value
+			for _, f := range DeepFuncs(fn, 2) {
+				vals = append(vals, storedToField(f, typ, field)...)
+			}
 			ok := false
 			for _, v := range vals {
 				if Derives(v, src) {
@@ -270,9 +465,11 @@ func runC20(c *Ctx) {
 		link(unc, "loader.Options.GoVersion←Runner.GoVersion", "loader.Options", "GoVersion", IsFieldOf("runner.Runner", "GoVersion"), "the loader options get the runner's Go version")
 		// … and that Options value is what Load receives
 		passed := false
-		for _, ci := range CallsTo(unc, false, Module+"/go/loader.Load") {
-			if Derives(ci.Common().Args[1], IsFieldOf("runner.Runner", "GoVersion")) {
-				passed = true
+		for _, f := range DeepFuncs(unc, 2) {
+			for _, ci := range CallsTo(f, false, Module+"/go/loader.Load") {
+				if Derives(ci.Common().Args[1], IsFieldOf("runner.Runner", "GoVersion")) {
+					passed = true
+				}
 			}
 		}
 		c.Check(FuncKey(unc)+"::Load-receives-options", unc.Pos(), passed, "loader.Load is called with the options carrying the runner's Go version")
@@ -288,27 +485,62 @@ func runC20(c *Ctx) {
 			k, ok := y.(*ssa.Const)
 			return ok && k.Value != nil && k.Value.Kind() == constant.String && constant.StringVal(k.Value) == "module" && DerivesLocal(x, IsFieldOf("loader.Options", "GoVersion"))
 		})
+		// every value that can be stored, with the instruction that selects it (a φ of a version variable is
+		// split into its incoming values, each anchored at the end of the block it comes from)
+		type sel struct {
+			v  ssa.Value
+			at ssa.Instruction
+		}
+		var sels []sel
+		var expand func(v ssa.Value, at ssa.Instruction, depth int)
+		expand = func(v ssa.Value, at ssa.Instruction, depth int) {
+			if phi, ok := v.(*ssa.Phi); ok && depth < 3 {
+				for i, e := range phi.Edges {
+					pred := phi.Block().Preds[i]
+					expand(e, pred.Instrs[len(pred.Instrs)-1], depth+1)
+				}
+				return
+			}
+			sels = append(sels, sel{v, at})
+		}
 		Instrs(lfs, false, func(in ssa.Instruction) {
 			st, ok := in.(*ssa.Store)
 			if !ok || !IsFieldOf("types.Config", "GoVersion")(st.Addr) {
 				return
 			}
-			if DerivesLocal(st.Val, IsFieldOf("loader.Options", "GoVersion")) {
+			expand(st.Val, st, 0)
+		})
+		goPrefixed := func(v ssa.Value) bool {
+			// "go" + x, or fmt.Sprintf("go%s", x)
+			return SliceHas(v, SliceOpts{ThroughCalls: true}, func(x ssa.Value) bool {
+				if bo, isBo := x.(*ssa.BinOp); isBo && bo.Op == token.ADD {
+					if k, ok := bo.X.(*ssa.Const); ok && k.Value != nil && k.Value.Kind() == constant.String && constant.StringVal(k.Value) == "go" {
+						return true
+					}
+				}
+				if call, isCall := x.(*ssa.Call); isCall && CalleeName(&call.Call) == "fmt.Sprintf" {
+					if k, ok := call.Call.Args[0].(*ssa.Const); ok && k.Value != nil && k.Value.Kind() == constant.String && strings.HasPrefix(constant.StringVal(k.Value), "go%") {
+						return true
+					}
+				}
+				return false
+			})
+		}
+		for _, sl := range sels {
+			fromMod := SliceHas(sl.v, SliceOpts{ThroughCalls: true}, IsFieldOf("packages.Module", "GoVersion"))
+			fromOpt := SliceHas(sl.v, SliceOpts{ThroughCalls: true}, IsFieldOf("loader.Options", "GoVersion"))
+			if fromOpt && !fromMod {
 				// must be on the not-"module" path
-				if ok, _ := MustPassEdges(lfs, st, ComplementEdges(moduleEdges)); ok {
+				if ok, _ := MustPassEdges(lfs, sl.at, ComplementEdges(moduleEdges)); ok {
 					fromFlag = true
 				}
 			}
-			if DerivesLocal(st.Val, IsFieldOf("packages.Module", "GoVersion")) {
-				if bo, isBo := st.Val.(*ssa.BinOp); isBo && bo.Op == token.ADD {
-					if k, ok := bo.X.(*ssa.Const); ok && k.Value != nil && constant.StringVal(k.Value) == "go" {
-						if ok, _ := MustPassEdges(lfs, st, moduleEdges); ok {
-							fromModule = true
-						}
-					}
+			if fromMod && goPrefixed(sl.v) {
+				if ok, _ := MustPassEdges(lfs, sl.at, moduleEdges); ok {
+					fromModule = true
 				}
 			}
-		})
+		}
 		c.Check(FuncKey(lfs)+"::types.Config.GoVersion←-go-flag", lfs.Pos(), fromFlag, "with an explicit -go value the type checker's GoVersion is that value (%d stores)", len(vals))
 		c.Check(FuncKey(lfs)+"::types.Config.GoVersion←module-go-directive", lfs.Pos(), fromModule, "with -go=module the type checker's GoVersion is \"go\"+Module.GoVersion")
 		// the Config that is configured is the one handed to the checker
@@ -418,7 +650,20 @@ func isPassReport(in ssa.Instruction) bool {
 		return false
 	}
 	// pass.Report is a func-typed field of analysis.Pass
-	return DerivesLocal(call.Call.Value, IsFieldOf("analysis.Pass", "Report")) || DerivesLocal(call.Call.Value, IsFieldOf("analysis.Pass", "Reportf"))
+	if DerivesLocal(call.Call.Value, IsFieldOf("analysis.Pass", "Report")) || DerivesLocal(call.Call.Value, IsFieldOf("analysis.Pass", "Reportf")) {
+		return true
+	}
+	// … or a helper of the same package that makes the call
+	if callee := call.Call.StaticCallee(); callee != nil && callee.Blocks != nil && in.Parent() != nil && FuncPkgPath(callee) == FuncPkgPath(in.Parent()) && callee != in.Parent() {
+		for _, f := range DeepFuncs(callee, 1) {
+			for _, ci := range Calls(f, false) {
+				if DerivesLocal(ci.Common().Value, IsFieldOf("analysis.Pass", "Report")) || DerivesLocal(ci.Common().Value, IsFieldOf("analysis.Pass", "Reportf")) {
+					return true
+				}
+			}
+		}
+	}
+	return false
 }
 
 // evalStdlibVersion abstractly executes StdlibVersion for every ordering of
@@ -433,6 +678,14 @@ func evalStdlibVersion(c *Ctx, fn *ssa.Function) {
 	isF := func(v ssa.Value) bool {
 		u, ok := v.(*ssa.UnOp)
 		return ok && u.Op == token.MUL && IsFieldOf("ast.File", "GoVersion")(u.X)
+	}
+	isLenOfF := func(v ssa.Value) bool {
+		call, ok := v.(*ssa.Call)
+		if !ok {
+			return false
+		}
+		b, isB := call.Call.Value.(*ssa.Builtin)
+		return isB && b.Name() == "len" && isF(call.Call.Args[0])
 	}
 	if M == nil {
 		c.Undecided("StdlibVersion does not call (*types.Package).GoVersion")
@@ -527,6 +780,41 @@ func evalStdlibVersion(c *Ctx, fn *ssa.Function) {
 					truth = bo.Op == token.NEQ
 				case isF(bo.X) && isK(bo.Y, ""), isK(bo.X, "") && isF(bo.Y):
 					truth = (bo.Op == token.NEQ) == cl.tagged
+				case isLenOfF(bo.X) || isLenOfF(bo.Y):
+					// len(tag) compared with a constant: the tag is either empty (length 0) or a version (length >= 3)
+					l := int64(0)
+					if cl.tagged {
+						l = 5 // "go1.N": any length >= 3 gives the same answers for the constants 0 and 1
+					}
+					x, y := bo.X, bo.Y
+					var a, b int64
+					if isLenOfF(x) {
+						k, ok := ConstInt(y)
+						if !ok || k > 1 {
+							c.Undecided("StdlibVersion compares the tag's length with something other than 0 or 1")
+						}
+						a, b = l, k
+					} else {
+						k, ok := ConstInt(x)
+						if !ok || k > 1 {
+							c.Undecided("StdlibVersion compares the tag's length with something other than 0 or 1")
+						}
+						a, b = k, l
+					}
+					switch bo.Op {
+					case token.EQL:
+						truth = a == b
+					case token.NEQ:
+						truth = a != b
+					case token.LSS:
+						truth = a < b
+					case token.LEQ:
+						truth = a <= b
+					case token.GTR:
+						truth = a > b
+					case token.GEQ:
+						truth = a >= b
+					}
 				default:
 					call, isCall := bo.X.(*ssa.Call)
 					k, isConst := ConstInt(bo.Y)
@@ -573,4 +861,14 @@ func evalStdlibVersion(c *Ctx, fn *ssa.Function) {
 		w := map[string]string{"M": "the module version", "F": "the file tag"}
 		c.Check(FuncKey(fn)+"::table["+desc+"]", fn.Pos(), got == want, "StdlibVersion must return %s for %q, it returns %s", w[want], desc, w[got])
 	}
+}
+
+// SortedIntKeys returns the keys of a set of ints in increasing order.
+func SortedIntKeys(m map[int]bool) []int {
+	var out []int
+	for k := range m {
+		out = append(out, k)
+	}
+	sort.Ints(out)
+	return out
 }
